@@ -70,13 +70,9 @@ def World.reset (w : World) (o : Nat) : World :=
   | some x => ((w.viewsOf x).foldl World.resetOne w).resetOne o
 
 /-- `Stream.proxy()`: the proxy gets its own empty memo (the repaired behaviour; the
-original code shared the dict but not the key).  The proxy of a MultiStream holds the
-original's `_streams` dict. -/
-def World.proxy (w : World) (o : Nat) : World × Nat :=
-  let (w1, p) := w.newObj
-  match w1.obj? o, w1.obj? p with
-  | some x, some y => (w1.setObj p { y with views := x.views }, p)
-  | _, _ => (w1, p)
+original code shared the dict but not the key) and, for a MultiStream, its own empty
+`_streams` dict (repair db10e94). -/
+def World.proxy (w : World) (_o : Nat) : World × Nat := w.newObj
 
 /-- `MultiStream.__getitem__(phase)` on first access: a view object with its own memo. -/
 def World.view (w : World) (o : Nat) : World × Nat :=
